@@ -87,6 +87,22 @@ func TestC08(t *testing.T) {
 			merk("big", 3, ^uint64(0))
 			merk("big", 0, ^uint64(0))
 			merk("big", 7, 1<<63)
+			// a zero-hash table that is exactly as deep as the limit needs (InitZeroHashes with
+			// fewer levels than the default 64): the routine only uses entries below the limit's depth
+			for d := uint(1); d <= 11; d++ {
+				tree.InitZeroHashes(pairOf(cfg), d-1)
+				for _, limit := range []uint64{1<<(d-1) + 1, 1 << d} {
+					if limit < 2 || tree.CoverDepth(limit) != uint8(d) {
+						continue
+					}
+					for _, count := range []uint64{0, 1, 2, 3, limit / 2, limit - 1, limit} {
+						if count <= limit && count <= 40 {
+							merk("shallow", count, limit)
+						}
+					}
+				}
+			}
+			tree.InitZeroHashes(pairOf(cfg), 64)
 			// flat values of generated types
 			n := 500
 			if thorough() {
